@@ -1824,15 +1824,18 @@ class FloatData(Data[float]):
         with printer.in_angle_brackets():
             printer.print_string(f"{self.data}")
 
+    def _bits(self) -> bytes:
+        return struct.pack("<d", self.data)
+
     def __eq__(self, other: object):
-        # avoid triggering `float('nan') != float('nan')` inequality
-        return isinstance(other, FloatData) and (
-            (math.isnan(self.data) and math.isnan(other.data))
-            or self.data == other.data
-        )
+        # Compare bit patterns: `0.0` and `-0.0`, or NaNs with different payloads, are
+        # different values, while a NaN is equal to itself (unlike `float.__eq__`).
+        return isinstance(other, FloatData) and self._bits() == other._bits()
 
     def __hash__(self):
-        return hash(self.data)
+        # `hash(float("nan"))` depends on object identity, which would give equal
+        # attributes different hashes.
+        return hash(self._bits())
 
 
 _FloatAttrTypeCovT = TypeVar(
